@@ -118,6 +118,14 @@ def generate(rng, tier):
                 if len(a) == 1:
                     cases.append(dict(alias=alias, cap=None, static=static, args=[], kwargs=[["v", a[0]]], variants=[],
                                       via_decorator=True))
+    # large captured arguments (keys of several KB): the key is still the full text, in every process
+    for k in range(6 if tier == "quick" else 30):
+        big = [pv.dct([("k%03d" % i, pv.i(i * 7 + k)) for i in range(rng.randrange(90, 140))]),
+               pv.s("".join(rng.choice("abcdefgh ") for _ in range(rng.randrange(1500, 3500)))),
+               pv.lst([pv.s("item-%d" % i) for i in range(rng.randrange(150, 260))])][k % 3]
+        as_kw = k % 2 == 1
+        cases.append(dict(alias="bulk", cap=None, static=True, args=[] if as_kw else [pv.i(k), big],
+                          kwargs=[["doc", big]] if as_kw else [], variants=[], via_decorator=True))
     # probe stream for the known finding F06: set arguments (hash-seed dependent iteration order)
     for _ in range(12 if tier == "quick" else 100):
         elems = rng.sample(["x", "y", "zz", "abc", "q", "w", "long-string"], rng.randrange(2, 5))
